@@ -645,6 +645,8 @@ func (p *parentStreamReader[T]) peek(idx int) (t T, err error) {
 	err = elem.item.err
 	if err != io.EOF {
 		p.subStreamList[idx] = elem.next
+	} else {
+		verifC19ChildEnd(p, idx)
 	}
 
 	return t, err
